@@ -31,7 +31,10 @@ const (
 )
 
 type verifOp struct {
-	Op      string      `json:"op"` // add | tick | advance | flush | wait | par | racetick | waitrace
+	Op      string      `json:"op"`     // add | tick | advance | flush | wait | par | racetick | waitrace | holdexec
+	Via     string      `json:"via"`    // holdexec: whose execute callback is held: tick | flush | wait
+	During  []verifOp   `json:"during"` // holdexec: Adds issued while it is held
+	Waiter  bool        `json:"waiter"` // holdexec: a concurrent Wait is called while it is held
 	ID      int         `json:"id"`
 	Size    int         `json:"size"`
 	N       int         `json:"n"`
@@ -93,6 +96,8 @@ type verifProbe struct {
 	inAddTask bool
 	hold      bool // execute callbacks park at entry
 	holdCh    chan struct{}
+	holdOnce  chan struct{} // non-nil: the next execute callback (only) parks at entry
+	parked    int
 
 	adds    []verifAdd
 	calls   []verifCall
@@ -244,6 +249,11 @@ func verifNewRig(c verifCase) *verifRig {
 		var ch chan struct{}
 		if p.hold {
 			ch = p.holdCh
+		} else if p.holdOnce != nil {
+			ch = p.holdOnce
+			p.holdOnce = nil
+			p.parked++
+			p.cond.Broadcast()
 		}
 		p.mu.Unlock()
 		if ch != nil {
@@ -466,6 +476,84 @@ func (r *verifRig) run(i int, op verifOp) {
 			r.settle(what)
 		case <-time.After(verifPatience):
 			r.setHung(what + ": Add did not return")
+		}
+	case "holdexec":
+		// The execute callback of a batch flushed by a tick / an explicit Flush / a Wait is held; meanwhile
+		// tasks are added (they may reach the threshold) and, optionally, Wait is called; then it goes on.
+		gate := make(chan struct{})
+		p.bump(func() { p.holdOnce = gate; p.parked = 0 })
+		var trig chan struct{}
+		if op.Via == "tick" {
+			r.doTick(false)
+		} else {
+			trig = make(chan struct{})
+			go func() {
+				defer close(trig)
+				r.doCall(op.Via)
+			}()
+		}
+		held := p.untilFor(verifPatience/4, func() bool { return p.parked > 0 })
+		if !held {
+			p.bump(func() { p.holdOnce = nil })
+		}
+		addsDone := make(chan struct{})
+		go func() {
+			defer close(addsDone)
+			for _, o := range op.During {
+				r.doAdd(o.ID, o.Size)
+			}
+		}()
+		// the adders finish, or one of them parks with a batch in the hand-over channel (flusher busy)
+		deadline := time.Now().Add(verifPatience)
+		for blocked := false; !blocked && time.Now().Before(deadline); {
+			select {
+			case <-addsDone:
+				blocked = true
+			default:
+				if held && len(r.pe.commander) == 1 {
+					blocked = true
+				} else {
+					time.Sleep(200 * time.Microsecond)
+				}
+			}
+		}
+		var waitDone chan struct{}
+		if op.Waiter && held {
+			p.mu.Lock()
+			ra := p.removeAlls
+			p.mu.Unlock()
+			waitDone = make(chan struct{})
+			go func() {
+				defer close(waitDone)
+				r.doCall("wait")
+			}()
+			// the waiter has flushed and sits in wgBarrier.Guard(waitGroup.Wait) -- or has returned
+			p.until(func() bool { return p.removeAlls > ra })
+			for dl := time.Now().Add(verifPatience / 4); !r.barrierHeld() && time.Now().Before(dl); {
+				select {
+				case <-waitDone:
+					dl = time.Now()
+				default:
+					time.Sleep(200 * time.Microsecond)
+				}
+			}
+		}
+		if held {
+			close(gate)
+		}
+		for _, ch := range []chan struct{}{trig, addsDone, waitDone} {
+			if ch == nil {
+				continue
+			}
+			select {
+			case <-ch:
+			case <-time.After(verifPatience):
+				r.setHung(what + ": did not return")
+			}
+		}
+		r.settle(what)
+		if op.Via == "tick" {
+			p.bump(func() { p.tickObs[len(p.tickObs)-1].Done = p.next() })
 		}
 	case "waitrace":
 		// pre: adds that fill a batch whose execution is held; then Add(ID) returns (task in the
